@@ -383,7 +383,7 @@ PROPS["C17"] = dict(
     thorough=[R("lru_splay", "asan", 16, 8000, timeout=7200), R("lru_splay", "plain", 16, 60000, timeout=7200)],
     rule="a case = 12 rounds; a round = one LRU cache history (LruCacheSet<int|string>, LruCacheMap<int,Tracked | "
          "string,string | Tracked,int>; key universe 3..12 plus one rarely present key; 20..300 ops: put (new and "
-         "existing key, new value), touch, touch_if_exists, erase, erase_if_exists, get, get_touch, exists, pop on "
+         "existing key, new value; also with the value passed as a reference into the cache: put(k, get(k)) and put(k, get(k2))), touch, touch_if_exists, erase, erase_if_exists, get, get_touch, exists, pop on "
          "non-empty caches, clear-then-reuse, final drain by pop) and one SplayTree history (set/multiset x less/"
          "greater/coarse order with 2-key equivalence classes x int/Tracked keys; insert, erase(key), erase(node), "
          "exists, find, clear-then-reuse, operations on the empty tree, destruction). After every op: LRU size, "
@@ -393,7 +393,8 @@ PROPS["C17"] = dict(
          "== size through the arena-checking allocator, ledger.live == size for Tracked keys. Classes: container "
          "type x universe.",
     require=dict(any=["lru_histories", "splay_histories", "lru_pops", "lru_put_existing", "lru_exception_on_absent",
-                      "splay_clear_then_reuse", "splay_ops_on_empty_tree", "splay_erase_one_of_equivalent"]),
+                      "splay_clear_then_reuse", "splay_ops_on_empty_tree", "splay_erase_one_of_equivalent",
+                      "lru_put_value_aliasing_own_entry"]),
     assumptions=["a std::list with linear search is the reference LRU; std::set/multiset the reference ordered set",
                  "find() on an absent key may return either neighbour (the splayed root); only membership is fixed",
                  SAN_ASSUME],
